@@ -73,10 +73,13 @@ Splice(s, i, del, t) == SubSeq(s, 1, i - 1) \o t \o SubSeq(s, i + del, Len(s))  
 ElemCount(s) == Cardinality({i \in 1..Len(s) : kind[s[i]] = "elem"})
 Moved(c) == IF kind[c] = "frag" THEN kids[c] ELSE <<c>>
 AttrByName(e, nm) == IF \E a \in attrs[e] : name[a] = nm THEN CHOOSE a \in attrs[e] : name[a] = nm ELSE 0
-AttrSeq(e) == LET F[i \in 0..Len(NameSeq)] ==
+\* attributes of e in the order of their node names as strings: plain names first, then the "p:" names that
+\* renameNode into a namespace produces (the harness enumerates a cloned element's attributes in this order)
+ExtNameSeq == NameSeq \o [i \in 1..Len(NameSeq) |-> "p:" \o NameSeq[i]]
+AttrSeq(e) == LET F[i \in 0..Len(ExtNameSeq)] ==
                     IF i = 0 THEN <<>>
-                    ELSE IF AttrByName(e, NameSeq[i]) # 0 THEN Append(F[i - 1], AttrByName(e, NameSeq[i])) ELSE F[i - 1]
-              IN F[Len(NameSeq)]
+                    ELSE IF AttrByName(e, ExtNameSeq[i]) # 0 THEN Append(F[i - 1], AttrByName(e, ExtNameSeq[i])) ELSE F[i - 1]
+              IN F[Len(ExtNameSeq)]
 MapSeq(s, F(_)) == [i \in 1..Len(s) |-> F(s[i])]
 
 Fail(a, args, nm, s, errs) ==
